@@ -5,6 +5,7 @@ CONSTANTS
   Barrier = TRUE
   AcqBarrier = TRUE
   NotLeaderPanics = FALSE
+  ApplyRefuses = TRUE
   MaxReq = 2
   MaxTransfers = 2
   MaxCancels = 0
